@@ -2,11 +2,14 @@ package scen
 
 import (
 	"bytes"
+	"errors"
 	"fmt"
 	"net"
+	"sync/atomic"
 	"time"
 
 	"github.com/anacrolix/dht/v2"
+	"github.com/anacrolix/dht/v2/bep44"
 	"github.com/anacrolix/dht/v2/krpc"
 	peer_store "github.com/anacrolix/dht/v2/peer-store"
 
@@ -37,6 +40,7 @@ type c08inj struct {
 }
 
 func c08(r *Run) {
+	var storeFailed atomic.Int64
 	ch := r.Ch
 	passive := ch.Chance(1, 6, "cfg.passive")
 	hook := ch.Intn(3, "cfg.hook") // 0 nil, 1 propagate, 2 veto rule
@@ -52,6 +56,25 @@ func c08(r *Run) {
 	cfg := &dht.ServerConfig{NoSecurity: true, Passive: passive}
 	if withPS {
 		cfg.PeerStore = &peer_store.InMemory{}
+	}
+	// one run in three has a BEP 44 store that fails now and then: the query is
+	// still owed exactly one datagram, an error if need be
+	storeFaults := ch.Chance(1, 3, "cfg.storefaults")
+	if storeFaults {
+		st := &recStore{inner: bep44.NewMemory()}
+		plan := map[int64]bool{}
+		for i := ch.Range(1, 8, "storefault.n"); i > 0; i-- {
+			plan[int64(1+ch.Intn(30, "storefault.at"))] = true
+		}
+		var nops atomic.Int64
+		st.fail = func(op string) error {
+			if plan[nops.Add(1)] {
+				storeFailed.Add(1)
+				return errors.New("simulated store failure")
+			}
+			return nil
+		}
+		cfg.Store = st
 	}
 	if hook != 0 {
 		cfg.OnQuery = func(q *krpc.Msg, src net.Addr) bool { return !vetoRule(q.Q, q.T) }
@@ -409,7 +432,7 @@ func c08(r *Run) {
 					wellAnswered++
 				}
 			} else if y == "e" {
-				if must && wantErr == 0 && inj.method != "put" {
+				if must && wantErr == 0 && inj.method != "put" && !(storeFaults && inj.method == "get") {
 					code, _ := errCode(d)
 					r.Violate("error-for-wellformed", "well-formed %s answered with error %d", desc, code)
 					return
@@ -419,6 +442,9 @@ func c08(r *Run) {
 				return
 			}
 		}
+	}
+	if n := storeFailed.Load(); n > 0 {
+		r.FaultsHit["store-error"] += int(n)
 	}
 	if passive && nonQueries > 0 && len(injected) > 5 {
 		r.NonTrivial = true
